@@ -697,10 +697,27 @@ impl C09 {
             model
         };
         let model = world(vec![]);
+        let mut out_stats_dup = false;
+        let mut out_stats_asserta = false;
         let var_hazard = (0..2).any(|i| model.var_headed[i] && model.front_or_retract[i]);
         let asserta_hazard = (0..2).any(|i| model.asserta_seen[i] && model.indexed_call[i]);
-        *hazard = if var_hazard { 3 } else if model.index_hazard { 1 } else if model.dup_hazard { 2 } else if asserta_hazard { 4 } else { 0 };
+        // (hazards 2 "assert into a bucket after a retraction" and 4 "asserta + indexed call" were
+        // keyed apart until the two defects behind them were repaired in /repo; they are
+        // counted only now and such histories are checked strictly)
+        if model.dup_hazard {
+            out_stats_dup = true;
+        }
+        if asserta_hazard {
+            out_stats_asserta = true;
+        }
+        *hazard = if var_hazard { 3 } else if model.index_hazard { 1 } else { 0 };
         let want_db = model.db_text();
+        if out_stats_dup {
+            out.bump("histories_asserting_into_a_bucket_after_a_retraction", 1);
+        }
+        if out_stats_asserta {
+            out.bump("histories_with_asserta_and_indexed_call", 1);
+        }
 
         // implementation
         let setup: Vec<String> = init.iter().enumerate().map(|(i, o)| goal_text(o, i, guard)).collect();
